@@ -407,6 +407,14 @@ func (fr *Frame) call(ci ssa.CallInstruction, c *ssa.CallCommon) []*Term {
 						panic(rr)
 					}
 				}()
+				if is.Requires != "" {
+					rf := w.P.Specs[is.Requires]
+					if rf == nil {
+						enc.unsup("iface requires %s not found", is.Requires)
+					}
+					rq := env.applySpec(rf, tvs[:1])
+					enc.oblige("call:requires", fr.where(ci), shortTypeName(key)+" requires "+is.Requires+"(receiver)", nil, fr.curPC, rq.T)
+				}
 				r = env.applySpec(sf, tvs)
 			}()
 			return []*Term{enc.define("iface_"+c.Method.Name(), w.sortOf(resTypes[0]), r.T)}
@@ -697,6 +705,15 @@ func (fr *Frame) assignTargets(x ast.Expr, env *Env) []assignTarget {
 	case *ast.CallExpr:
 		if id, ok := e.Fun.(*ast.Ident); ok && len(e.Args) == 1 {
 			switch id.Name {
+			case "boxes":
+				t, err := resolveTypeExpr(e.Args[0], env.scope, w.P)
+				if err != nil {
+					env.fail("%v", err)
+				}
+				so := w.sortOf(t)
+				name := heapBoxName(so)
+				env.heap(env.state, name, arraySort("Int", so))
+				return []assignTarget{{name: name, whole: true}}
 			case "contents":
 				v := env.tr(e.Args[0])
 				return []assignTarget{{name: "Bld", sort: arraySort("Int", "String"), ref: v.T}}
